@@ -16,7 +16,12 @@ RULE = ("strings: random Python str values from 17 code-point classes (quotes, b
         "adjacent literals; ints (to 3000 bits) in dec/hex/oct/bin with underscores and prefix "
         "case, floats (boundary values, random bit patterns) as repr, %.17e, fixed, underscore, "
         "leading-zero and zero-padded-exponent forms, optionally negated; each evaluated with "
-        "compile_expression and rendered. numbers: EVERY string up to length L over the 20 "
+        "compile_expression and rendered. every string case runs in the default environment and "
+        "in two of the five other newline_sequence (\\n|\\r\\n|\\r) x keep_trailing_newline "
+        "configurations in rotation; the systematic single-atom section (every code-point class x "
+        "every escape kind, incl. escaped \\n / \\r as simple, octal, \\x, \\u, \\U, \\N{} "
+        "escapes) runs under all six: an ESCAPED line break denotes the Python value whatever "
+        "the newline_sequence. numbers: EVERY string up to length L over the 20 "
         "symbols 0-9 _ . e E x X o O b B is lexed with Environment.lex; those read as exactly "
         "one integer/float token are evaluated and compared with ast.literal_eval. distinct = "
         "(value classes, spelling form, atom kinds) for strings, (form, magnitude class) for "
@@ -25,8 +30,11 @@ TECHNIQUE = "differential oracle: Python's literal evaluator / by-construction v
 LEVEL_TEXT = ("held on every generated spelling and on the exhaustive number-spelling space up to "
               "the reported length; only valid Python spellings are generated")
 ASSUMPTIONS = [
-    "default Environment (newline_sequence '\\n'); no raw CR/LF inside a literal except the "
-    "backslash-newline continuation",
+    "numbers: default Environment only; strings: all six newline_sequence x "
+    "keep_trailing_newline configurations",
+    "no raw CR/LF inside a literal except the backslash-newline continuation, and that one only "
+    "under newline_sequence '\\n' (what a raw line break inside a literal denotes under another "
+    "newline_sequence is not documented; such cases are counted as skipped)",
     "only escapes that Python accepts without a warning are generated (octal <= \\377)",
     "a number spelling is decided only when Environment.lex yields exactly one integer/float "
     "token spanning the whole spelling",
@@ -37,18 +45,24 @@ BUDGET_S = {"quick": 10, "thorough": 500}
 EXH_LEN = {"quick": 4, "thorough": 5}
 FLOORS = {
     # the exhaustive number-spelling part is not time-boxed: 20+20^2+20^3+20^4 = 168420 lexed
-    "quick": {"evaluations": 12000, "distinct": 8000,
+    "quick": {"evaluations": 16000, "distinct": 8000,
               "counters": {"string_cases": 2500, "int_cases": 800, "float_cases": 800,
                            "lexed_spellings": 168420, "single_number_spellings": 15000,
                            "single_integer": 8000, "single_float": 4000,
-                           "render_checks": 1500, "python_crosschecks": 4000,
-                           "single_atom_cases": 600}},
+                           "render_checks": 6000, "python_crosschecks": 4000,
+                           "single_atom_cases": 600, "string_evals": 9000,
+                           "string_evals_nondefault_newline": 5000,
+                           "string_evals_keep_trailing_newline": 4000,
+                           "escaped_linebreak_nondefault_newline": 350}},
     "thorough": {"evaluations": 400000, "distinct": 250000,
                  "counters": {"string_cases": 60000, "int_cases": 15000, "float_cases": 15000,
                               "lexed_spellings": 3368420, "single_number_spellings": 250000,
                               "single_integer": 120000, "single_float": 80000,
                               "render_checks": 50000, "python_crosschecks": 50000,
-                              "single_atom_cases": 10000}},
+                              "single_atom_cases": 10000, "string_evals": 150000,
+                              "string_evals_nondefault_newline": 90000,
+                              "string_evals_keep_trailing_newline": 70000,
+                              "escaped_linebreak_nondefault_newline": 5000}},
 }
 
 ALPHABET = "0123456789_.eExXoObB"
@@ -103,8 +117,36 @@ def string_key(env, value, spelling, info):
     return "string:form-" + info["form"]
 
 
-def check_string(ctx, env, value, spelling, info, classes, do_render):
-    ctx.ev()
+CONFIGS = [(nl, keep) for nl in ("\n", "\r\n", "\r") for keep in (False, True)]   # default first
+NLNAME = {"\n": "lf", "\r\n": "crlf", "\r": "cr"}
+
+
+def make_envs():
+    from jinja2 import Environment
+
+    return {(nl, keep): Environment(newline_sequence=nl, keep_trailing_newline=keep)
+            for nl, keep in CONFIGS}
+
+
+def cfg_suffix(nl, keep):
+    """'' for the default configuration, else the configuration as part of the mechanism."""
+    if (nl, keep) == CONFIGS[0]:
+        return ""
+    return ":newline_sequence=" + NLNAME[nl] + ("+keep_trailing_newline" if keep else "")
+
+
+def has_raw_linebreak(info, spelling):
+    """A raw CR/LF INSIDE a quoted literal (only the backslash-newline continuation is ever
+    generated).  Line breaks between adjacent literals are token whitespace."""
+    kinds = info.get("kinds") or ()
+    if "linecont" in kinds:
+        return True
+    if info.get("form") in ("repr", "ascii", "single-atom"):
+        return False
+    return info.get("nparts", 1) == 1 and ("\n" in spelling or "\r" in spelling)
+
+
+def check_string(ctx, envs, value, spelling, info, classes, do_render, cfgs=None):
     ctx.count("string_cases")
     ctx.count("string_form_" + info["form"])
     case = {"kind": "string", "value": value, "spelling": spelling, "info":
@@ -122,33 +164,58 @@ def check_string(ctx, env, value, spelling, info, classes, do_render):
     else:
         ctx.count("python_unreadable_by_construction_only")
     ctx.dist(("s", classes, info["form"], sorted(set(info["kinds"])), info["nparts"]))
-    r = evaluate(env, spelling)
-    if r[0] == "exc":
-        ctx.violation(string_key(env, value, spelling, info) + ":raises",
-                      f"literal {short(spelling)} raised {type(r[1]).__name__}: {r[1]}; Python "
-                      f"value {short(value)}", case)
-        return
-    if not (type(r[1]) is str and r[1] == value):
-        ctx.violation(string_key(env, value, spelling, info) + ":wrong-value",
-                      f"literal {short(spelling)} evaluated to {short(r[1])}, Python value "
-                      f"{short(value)}", case)
-        return
-    if do_render:
-        ctx.count("render_checks")
-        o = render(env, spelling)
-        if o != ("ok", value):
-            ctx.violation(string_key(env, value, spelling, info) + ":render",
-                          f"{{{{ {short(spelling)} }}}} rendered {short(o[1])}, expected "
-                          f"{short(value)}", case)
+    raw_break = has_raw_linebreak(info, spelling)
+    has_break = "\n" in value or "\r" in value
+    for (nl, keep), env in envs.items():
+        if cfgs is not None and [nl, keep] not in cfgs:
+            continue
+        if nl != "\n" and raw_break:
+            # what a RAW line break inside a literal denotes under another newline_sequence is
+            # not documented (the lexer converts raw line breaks); only escaped ones are decided
+            ctx.count("skipped_raw_linebreak_nondefault_newline")
+            continue
+        ctx.ev()
+        ctx.count("string_evals")
+        if nl != "\n":
+            ctx.count("string_evals_nondefault_newline")
+            if has_break:
+                ctx.count("escaped_linebreak_nondefault_newline")
+        if keep:
+            ctx.count("string_evals_keep_trailing_newline")
+        sfx = cfg_suffix(nl, keep)
+        cfgtxt = "" if not sfx else f" [newline_sequence={nl!r} keep_trailing_newline={keep}]"
+        ccase = dict(case, nl=nl, keep=keep)
+        r = evaluate(env, spelling)
+        if r[0] == "exc":
+            ctx.violation(string_key(env, value, spelling, info) + ":raises" + sfx,
+                          f"literal {short(spelling)} raised {type(r[1]).__name__}: {r[1]}; Python "
+                          f"value {short(value)}{cfgtxt}", ccase)
+            return
+        if not (type(r[1]) is str and r[1] == value):
+            ctx.violation(string_key(env, value, spelling, info) + ":wrong-value" + sfx,
+                          f"literal {short(spelling)} evaluated to {short(r[1])}, Python value "
+                          f"{short(value)}{cfgtxt}", ccase)
+            return
+        if do_render:
+            ctx.count("render_checks")
+            o = render(env, spelling)
+            if o != ("ok", value):
+                ctx.violation(string_key(env, value, spelling, info) + ":render" + sfx,
+                              f"{{{{ {short(spelling)} }}}} rendered {short(o[1])}, expected "
+                              f"{short(value)}{cfgtxt}", ccase)
+                return
 
 
-def run_strings(ctx, env, n, rng):
+def run_strings(ctx, envs, n, rng):
     i = 0
     while ctx.more(i, n, min(n, 300)):
         i += 1
         value, classes = L.gen_value(rng, 12)
         spelling, info = L.spell_string(rng, value)
-        check_string(ctx, env, value, spelling, info, classes, do_render=(i % 2 == 0))
+        # default configuration always + two of the five others in rotation (the single-atom
+        # section below runs every atom kind under all six)
+        rot = [list(CONFIGS[0]), list(CONFIGS[1 + i % 5]), list(CONFIGS[1 + (i + 2) % 5])]
+        check_string(ctx, envs, value, spelling, info, classes, do_render=(i % 2 == 0), cfgs=rot)
         if i <= 2 and ctx.shard == 0:
             ctx.sample({"kind": "string", "value": value, "spelling": spelling})
     # every class x every atom kind, one character at a time (systematic, not random)
@@ -161,7 +228,7 @@ def run_strings(ctx, env, n, rng):
                 for kind, text in L.atom_options(ch, q):
                     info = {"form": "single-atom", "kinds": [kind], "nparts": 1,
                             "atoms": [(kind, text, ch)]}
-                    check_string(ctx, env, ch, q + text + q, info, [cname], do_render=True)
+                    check_string(ctx, envs, ch, q + text + q, info, [cname], do_render=True)
                     ctx.count("single_atom_cases")
 
 
@@ -339,8 +406,9 @@ def run(ctx):
     from jinja2 import Environment
 
     env = Environment()
+    envs = make_envs()
     quick = ctx.tier == "quick"
-    run_strings(ctx, env, 500 if quick else 12000, ctx.rng("str"))
+    run_strings(ctx, envs, 500 if quick else 12000, ctx.rng("str"))
     run_numbers(ctx, env, 200 if quick else 3000, ctx.rng("num"))
     done = run_exhaustive(ctx, env, EXH_LEN[ctx.tier])
     if done == EXH_LEN[ctx.tier]:
@@ -361,7 +429,8 @@ def replay(ctx, case):
             spelling = bytes.fromhex(spelling["$surrogate"]).decode("utf-8", "surrogatepass")
         info = dict(case["info"])
         info["atoms"] = None
-        check_string(ctx, env, value, spelling, info, [], True)
+        check_string(ctx, make_envs(), value, spelling, info, [], True,
+                     cfgs=[[case.get("nl", "\n"), case.get("keep", False)]])
     elif case["kind"] in ("int", "float"):
         text = case["spelling"]
         neg = text.startswith("-")
